@@ -885,7 +885,7 @@ def main(res, tier, rng, replay):
 
     # ---- every structural block of the library (and every structural block inside it) at sampled widths / arities
     lib = G.library_cases(rng, tier)
-    lim_s = 40 if quick else 270
+    lim_s = 28 if quick else 220
     t0 = time.time()
     for i, sp in enumerate(lib):
         if time.time() - t0 > lim_s:
@@ -908,10 +908,10 @@ def main(res, tier, rng, replay):
     res.cov['exhaustive_small_specs'] = len(ex)
 
     # ---- seeded random netlists outside the known-finding classes (the main failing-input search)
-    n_plain = 1000 if quick else 9000
+    n_plain = 800 if quick else 9000
     sizes = [1, 2, 3, 4, 6, 8, 10, 14] if quick else [1, 2, 3, 4, 5, 6, 8, 10, 12, 16, 20, 28, 40]
     profiles = [{}, {'fb': 40}, {'far': 90, 'fan': 60}, {'fb': 0, 'far': 0}, {'fan': 80}]
-    lim_s = 35 if quick else 270
+    lim_s = 25 if quick else 220
     t0 = time.time()
     for i in range(n_plain):
         if time.time() - t0 > lim_s:
@@ -926,7 +926,7 @@ def main(res, tier, rng, replay):
             B.run()
 
     # ---- the known-finding classes: duplicate sinks, self loops (still checked: anything outside the listed class is a violation)
-    n_cls = 60 if quick else 600
+    n_cls = 40 if quick else 400
     for i in range(n_cls):
         r = rng.fork(('dups', i))
         B.add(G.random_plan(r, r.choice(sizes[:8]), {'fan': 70, 'self': 0, 'free': 0}, exclude=G.BINOP3_KINDS), 'random-dupsink')
@@ -946,7 +946,7 @@ def main(res, tier, rng, replay):
         B.add(plan, 'random-binop3')
 
     # ---- outside the premise (undriven inputs): termination only; the layout is not judged
-    n_free = 40 if quick else 400
+    n_free = 25 if quick else 400
     for i in range(n_free):
         r = rng.fork(('free', i))
         B.add(G.random_plan(r, r.choice(sizes[:8]), {'free': 15, 'self': 0}), 'random-undriven', premise_expected=False)
